@@ -147,13 +147,17 @@ def parseArgsObj : List (Str × JVal) → Option (List (Str × Str))
       | _, _ => none
     else none
 
+/-- member `k` of an object -/
+def objGet (l : List (Str × JVal)) (k : String) : Option JVal :=
+  (l.find? (fun kv => kv.1 == k.toList)).map (·.2)
+
 /-- `parsePlugin<T>` -/
 def parsePlugin (p : JVal) : IRPlugin :=
   match p with
   | .obj l =>
-    match ((l.find? (fun kv => kv.1 == "name".toList)).map (·.2) : Option JVal) with
+    match objGet l "name" with
     | some (JVal.str name) =>
-      match ((l.find? (fun kv => kv.1 == "args".toList)).map (·.2) : Option JVal) with
+      match objGet l "args" with
       | none => ⟨name, []⟩
       | some JVal.null => ⟨name, []⟩
       | some (JVal.obj al) =>
@@ -218,17 +222,16 @@ def parseJson (doc : Option JVal) : Res IRRoot :=
 
 /-! ## plugins -/
 
-/-- what `init()` reads from the machine besides its arguments -/
+/-- what `init()` reads from the machine besides its arguments: `MemTotal` / `SwapTotal` (bytes) of
+    the meminfo file at a location (`none` = the default /proc/meminfo); `none` as a result: the file
+    is unreadable or has no such key -/
 structure Env where
-  fs : Str                     -- cgroup fs root of the PluginConstructionContext
-  memTotal : Option Int        -- MemTotal (bytes) in the file named by `meminfo_location`; none: unreadable / no such key
-  swapTotal : Option Int
-  hostMemTotal : Option Int    -- the same from /proc/meminfo (read when `meminfo_location` is not given)
-  hostSwapTotal : Option Int
-deriving Repr
+  fs : Str                               -- cgroup fs root of the PluginConstructionContext
+  memAt : Option Str → Option Int
+  swapAt : Option Str → Option Int
 
-def Env.mem (env : Env) (fromFile : Bool) : Option Int := if fromFile then env.memTotal else env.hostMemTotal
-def Env.swap (env : Env) (fromFile : Bool) : Option Int := if fromFile then env.swapTotal else env.hostSwapTotal
+def lookupArg (args : List (Str × Str)) (k : String) : Option Str :=
+  (args.find? (fun kv => kv.1 == k.toList)).map (·.2)
 
 structure PluginInst where
   name : Str
@@ -262,7 +265,7 @@ def pluginInit (env : Env) (sch : TypedSchema) (args : List (Str × Str)) : Opti
   if !sch.checksArgs then some []                            -- init() returns 0 whatever it is given
   else if sch.plugin == "memory_above" then
     -- MemoryAbove::init: meminfo first, then the argument list is edited, then the parser
-    match env.mem (hasArg args "meminfo_location") with
+    match env.memAt (lookupArg args "meminfo_location") with
     | none => none
     | some mt =>
       let a1 := eraseArg args "meminfo_location"
@@ -272,7 +275,7 @@ def pluginInit (env : Env) (sch : TypedSchema) (args : List (Str × Str)) : Opti
       argParse schema env.fs mt a2
   else if sch.plugin == "kill_by_swap_usage" then
     -- `auto swapTotal = 0;` is an int
-    argParse sch.args env.fs (wrap32 ((env.swap (hasArg args "meminfo_location")).getD 0)) (eraseArg args "meminfo_location")
+    argParse sch.args env.fs (wrap32 ((env.swapAt (lookupArg args "meminfo_location")).getD 0)) (eraseArg args "meminfo_location")
   else argParse sch.args env.fs 0 args
 
 def schemaOf (table : List TypedSchema) (hook : Bool) (name : Str) : Option TypedSchema :=
@@ -463,7 +466,6 @@ def declaredSchemas : List TypedSchema := [
   ⟨"dummy_prekill_hook", true, false, true, [⟨"cgroup", false, .cgroup⟩]⟩,
   ⟨"dump_cgroup_overview", false, false, true, [⟨"cgroup", false, .cgroup⟩, ⟨"always", false, .bool⟩]⟩,
   ⟨"exists", false, false, true, [⟨"cgroup", false, .cgroup⟩, ⟨"negate", false, .bool⟩, ⟨"debug", false, .bool⟩]⟩,
-  ⟨"kernel_panic", false, false, true, []⟩,
   ⟨"kill_by_io_cost", false, true, true, killBaseArgs⟩,
   ⟨"kill_by_memory_size_or_growth", false, true, true,
     [⟨"size_threshold", false, .uint⟩, ⟨"growing_size_percentile", false, .pct100⟩, ⟨"min_growth_ratio", false, .float⟩] ++ killBaseArgs⟩,
@@ -493,37 +495,37 @@ def declaredSchemas : List TypedSchema := [
   ⟨"systemd_restart", false, false, true,
     [⟨"service", true, .nonempty⟩, ⟨"post_action_delay", false, .uint⟩, ⟨"dry", false, .bool⟩]⟩]
 
-/-- What the documentation adds to the parser's table: `memory_above` and `kill_by_swap_usage` take
-    `meminfo_location`; `memory_above` takes `threshold_anon`, which replaces `threshold` (when both
-    are given only `threshold_anon` is effective, and `threshold` is then not read at all). -/
+/-- What a plugin declares, given the arguments it is handed.  Beyond the parser's table:
+    `memory_above` and `kill_by_swap_usage` take `meminfo_location`, which they consume themselves
+    before the parser runs (any string; it names the file `MemTotal` / `SwapTotal` is read from);
+    `memory_above` takes `threshold_anon` in place of `threshold` - when both are given only
+    `threshold_anon` is effective and `threshold` is set aside unread (docs/core_plugins.md). -/
 structure Declared where
-  args : List TypedArg          -- every argument that may be given, with its kind
-  required : List String        -- each must be given
-  ignored : List String         -- given but deliberately not read (so any string is fine)
+  args : List TypedArg          -- the arguments the parser reads: name, required, kind
+  extern : List String          -- arguments set aside before the parser (not read by it)
+
+def renameArg (frm to : String) (a : TypedArg) : TypedArg := if a.name == frm then { a with name := to } else a
 
 def declaredFor (sch : TypedSchema) (args : List (Str × Str)) : Declared :=
-  let req := (sch.args.filter (·.required)).map (·.name)
   if sch.plugin == "memory_above" then
-    let anon := hasArg args "threshold_anon"
-    { args := sch.args ++ [⟨"threshold_anon", false, .sizepct⟩, ⟨"meminfo_location", false, .string⟩]
-      required := if anon then req.map (fun n => if n == "threshold" then "threshold_anon" else n) else req
-      ignored := if anon then ["threshold"] else [] }
-  else if sch.plugin == "kill_by_swap_usage" then
-    { args := sch.args ++ [⟨"meminfo_location", false, .string⟩], required := req, ignored := [] }
-  else { args := sch.args, required := req, ignored := [] }
+    if hasArg args "threshold_anon" then
+      { args := sch.args.map (renameArg "threshold" "threshold_anon"), extern := ["meminfo_location", "threshold"] }
+    else { args := sch.args, extern := ["meminfo_location"] }
+  else if sch.plugin == "kill_by_swap_usage" then { args := sch.args, extern := ["meminfo_location"] }
+  else { args := sch.args, extern := [] }
+
+def isExtern (d : Declared) (k : Str) : Bool := d.extern.any (fun n => n.toList == k)
 
 /-- the total a `sizepct` argument of this plugin is a percentage of -/
 def totalFor (env : Env) (sch : TypedSchema) (args : List (Str × Str)) : Int :=
-  if sch.plugin == "memory_above" then (env.mem (hasArg args "meminfo_location")).getD 0
-  else if sch.plugin == "kill_by_swap_usage" then wrap32 ((env.swap (hasArg args "meminfo_location")).getD 0) else 0
+  if sch.plugin == "memory_above" then (env.memAt (lookupArg args "meminfo_location")).getD 0
+  else if sch.plugin == "kill_by_swap_usage" then wrap32 ((env.swapAt (lookupArg args "meminfo_location")).getD 0) else 0
 
-/-- the valid reading of one given argument, `none` if undeclared or without a valid reading -/
+/-- the valid reading of one argument the parser reads: `none` if undeclared or without a valid reading -/
 def argReading (env : Env) (sch : TypedSchema) (d : Declared) (args : List (Str × Str)) (kv : Str × Str) : Option Val :=
   match d.args.find? (fun a => a.name.toList == kv.1) with
   | none => none
-  | some a =>
-    if d.ignored.any (fun n => n.toList == kv.1) then some (.str kv.2)
-    else Parse.Spec.validReading a.kind env.fs (totalFor env sch args) kv.2
+  | some a => Parse.Spec.validReading a.kind env.fs (totalFor env sch args) kv.2
 
 /-- "the plugin is named, exists, every required argument is present, no argument is given that
     the plugin does not declare, every value has a valid reading" -/
@@ -533,8 +535,16 @@ def pluginValid (env : Env) (hook : Bool) (p : IRPlugin) : Bool :=
   | none => false
   | some sch =>
     let d := declaredFor sch p.args
-    d.required.all (fun n => hasArg p.args n) &&
-    p.args.all (fun kv => (argReading env sch d p.args kv).isSome)
+    d.args.all (fun a => !a.required || hasArg p.args a.name) &&
+    p.args.all (fun kv => isExtern d kv.1 || (argReading env sch d p.args kv).isSome)
+
+/-- what an accepted plugin must hold: for every given argument the parser reads, its valid reading -/
+def expectedVals (env : Env) (hook : Bool) (p : IRPlugin) : List (Str × Option Val) :=
+  match schemaOf declaredSchemas hook p.name with
+  | none => []
+  | some sch =>
+    let d := declaredFor sch p.args
+    (p.args.filter (fun kv => !isExtern d kv.1)).map fun kv => (kv.1, argReading env sch d p.args kv)
 
 def delayValid (s : Str) : Bool :=
   s.isEmpty || (Parse.Spec.inRange 0 (2 ^ 31) (Parse.Spec.intNumeral? s)).isSome
@@ -548,14 +558,43 @@ def rulesetValid (env : Env) (r : IRRuleset) : Bool :=
 def irValid (env : Env) (root : IRRoot) : Bool :=
   root.rulesets.all (rulesetValid env) && root.prekillHooks.all (pluginValid env true)
 
-/-- what an accepted plugin must hold: for every given argument that is read, its valid reading -/
-def expectedVals (env : Env) (hook : Bool) (p : IRPlugin) : List (Str × Option Val) :=
-  match schemaOf declaredSchemas hook p.name with
-  | none => []
-  | some sch =>
-    let d := declaredFor sch p.args
-    (p.args.filter (fun kv => !(d.ignored.any (fun n => n.toList == kv.1)) && kv.1 != "meminfo_location".toList)).map
-      fun kv => (kv.1, argReading env sch d p.args kv)
+/-! ### honoured exactly -/
+
+/-- element-wise relation between two lists of the same length -/
+def Forall2 {α β : Type} (R : α → β → Prop) : List α → List β → Prop
+  | [], [] => True
+  | a :: as, b :: bs => R a b ∧ Forall2 R as bs
+  | _, _ => False
+
+/-- the instance is the IR's plugin: its name, precisely the given arguments, and for every
+    argument the parser reads the stored value is the valid reading of the given string -/
+def instHonours (env : Env) (hook : Bool) (p : IRPlugin) (i : PluginInst) : Prop :=
+  i.name = p.name ∧ i.args = p.args ∧
+    i.vals.map (fun kv => (kv.1, some kv.2)) = expectedVals env hook p
+
+def groupHonours (env : Env) (g : IRDetectorGroup) (c : DetectorGroupC) : Prop :=
+  c.name = g.name ∧ Forall2 (instHonours env false) g.detectors c.detectors
+
+/-- a delay field: absent = the default, else a whole non-negative `int` -/
+def delayReading (dflt : Nat) (s : Str) : Option Int :=
+  if s.isEmpty then some (dflt : Int) else Parse.Spec.inRange 0 (2 ^ 31) (Parse.Spec.intNumeral? s)
+
+def rulesetHonours (env : Env) (r : IRRuleset) (c : RulesetC) : Prop :=
+  c.name = r.name ∧ Forall2 (groupHonours env) r.dgs c.dgs ∧ Forall2 (instHonours env false) r.acts c.acts ∧
+  delayReading defaultPostActionDelay r.postActionDelay = some c.postActionDelay ∧
+  delayReading defaultPrekillHookTimeout r.prekillHookTimeout = some c.prekillHookTimeout ∧
+  c.disableOnDropIn = r.disableOnDropIn ∧ c.dgDropIn = r.detectorgroupsEnabled ∧
+  c.actDropIn = r.actiongroupEnabled ∧ c.xattrFilter = r.xattrFilter ∧
+  c.cgroup = (if r.cgroup.isEmpty then none else some (Path.mk env.fs r.cgroup))
+
+/-- rulesets, groups and plugins in the order of the configuration, each honoured -/
+def engineHonours (env : Env) (root : IRRoot) (e : EngineC) : Prop :=
+  Forall2 (rulesetHonours env) root.rulesets e.rulesets ∧ Forall2 (instHonours env true) root.prekillHooks e.hooks
+
+/-- validity of a drop-in document against the base configuration -/
+def dropInValid (env : Env) (root dropin : IRRoot) : Bool :=
+  dropin.rulesets.all (fun d => rulesetValid env d && root.rulesets.any (fun b => b.name == d.name)) &&
+  dropin.prekillHooks.all (pluginValid env true)
 
 end Spec
 
